@@ -26,6 +26,7 @@ LEVEL = 'fault_enumeration'
 
 OLD = b'OLD-CONTENT-0123456789\n'
 OLD_MODE = 0o640
+FIRST = b'content of the first save with this saver object\n'
 BIG = 3 * 8192 + 5
 
 
@@ -49,6 +50,8 @@ def body_plan(kind):
         return [('write', 'abcdefghij'), ('seek', 3), ('write', 'XYZ'), ('seek', 10), ('write', '!\n')]
     if kind == 'bigflush':
         return [('write', 'Q' * BIG), ('flush',), ('write', 'R' * 9000), ('write', 'end\n')]
+    if kind == 'huge':           # beyond every buffer-size threshold one might meet (a 2 MiB write, then 64 KiB pieces)
+        return [('write', 'H' * (2 * 1024 * 1024 + 3))] + [('write', chr(65 + i) * 65536) for i in range(4)] + [('write', 'end\n')]
     if kind == 'sysexit':        # the process ends itself inside the block (sys.exit(), a SIGTERM handler ...)
         return [('write', 'half-of-the-new-content\n'), ('flush',), ('abort', 'SystemExit'), ('write', 'never\n')]
     if kind == 'kbint':
@@ -105,6 +108,19 @@ def configs(tier):
             out.append(dict(c, body='closes'))
             if c['overwrite']:
                 out.append(dict(c, dest_name='n' * 251 + '.txt'))
+    # other ways of using the class than one `with atomic_save(...)`: ONE AtomicSaver object used for two saves in a row
+    # ('reuse': first a complete save of FIRST, then the body), the documented explicit form setup() / part_file.write /
+    # __exit__(None, None, None) ('manual'), and an explicit-form saver that is abandoned after a partial write and
+    # garbage-collected ('abandon': nothing may be published)
+    for c in base:
+        if c['file_perms'] is None and c['body'] in ('one', 'big', 'none') and c['overwrite']:
+            for api in ('reuse', 'manual', 'abandon'):
+                if api == 'abandon' and c['body'] == 'none':
+                    continue
+                out.append(dict(c, api=api))
+    for c in base:
+        if c['file_perms'] is None and c['body'] == 'one' and c['overwrite'] and c['dest_present']:
+            out.append(dict(c, body='huge'))
     # two savers of one destination whose with-blocks overlap (the second one is refused, and retried)
     for c in base:
         if c['file_perms'] is None and c['body'] in ('one', 'big') and c['overwrite']:
@@ -129,6 +145,11 @@ class Scenario:
         if cfg.get('interleaved'):
             self.new_b = b'CONTENT-OF-THE-SECOND-SAVER\n' * 3
             self.news.append(self.new_b)
+        self.api = cfg.get('api')
+        if self.api == 'reuse':
+            self.news.append(FIRST)        # the complete content of the first save may be what a crash leaves
+        if self.api == 'abandon':
+            self.aborts, self.new, self.news = True, None, []
         self.other_dir = cfg.get('other_dir')
 
         self.initial = self.initial_state()
@@ -176,6 +197,8 @@ class Scenario:
             env.decide({'name': 'checkpoint', 'key': ('before with',)})
             if cfg.get('interleaved'):
                 return self.run_interleaved(env, fileutils, kw)
+            if self.api:
+                return self.run_api(env, fileutils, kw)
             with fileutils.atomic_save(self.dest, **kw) as f:
                 env.decide({'name': 'checkpoint', 'key': ('enter',)})
                 for i, st in enumerate(self.plan):
@@ -198,6 +221,44 @@ class Scenario:
             return e
         finally:
             fileutils.os = saved
+
+    def do_plan(self, env, f):
+        for i, st in enumerate(self.plan):
+            if st[0] == 'write':
+                f.write(st[1] if self.cfg['text_mode'] else st[1].encode('utf-8'))
+            elif st[0] == 'flush':
+                f.flush()
+            elif st[0] == 'seek':
+                f.seek(st[1])
+            env.decide({'name': 'checkpoint', 'key': ('body', i)})
+
+    def run_api(self, env, fileutils, kw):
+        import gc
+        cfg = self.cfg
+        saver = fileutils.AtomicSaver(self.dest, **kw)
+        if self.api == 'reuse':
+            with saver as f:
+                f.write(FIRST.decode('utf-8') if cfg['text_mode'] else FIRST)
+            env.decide({'name': 'checkpoint', 'key': ('first save done',)})
+            with saver as f:
+                env.decide({'name': 'checkpoint', 'key': ('enter',)})
+                self.do_plan(env, f)
+        elif self.api == 'manual':
+            saver.setup()
+            env.decide({'name': 'checkpoint', 'key': ('enter',)})
+            self.do_plan(env, saver.part_file)
+            saver.__exit__(None, None, None)
+        else:                   # abandon: the caller never reaches __exit__ (an exception elsewhere, a forgotten call)
+            saver.setup()
+            self.do_plan(env, saver.part_file)
+            saver.part_file.flush()
+            env.decide({'name': 'checkpoint', 'key': ('before abandoning',)})
+            del saver
+            gc.collect()
+            env.decide({'name': 'checkpoint', 'key': ('abandoned and collected',)})
+            return None
+        env.decide({'name': 'checkpoint', 'key': ('after with',)})
+        return None
 
     def run_interleaved(self, env, fileutils, kw):
         """Saver A is inside its with-block when saver B tries to save the same destination (B must be refused: the part
@@ -371,9 +432,17 @@ def durable_states(log, k, sc):
     return states
 
 
-def check_log_order(log, sc, bad, exc=None):
+def check_log_order(log, sc, bad, exc=None, _second=False):
     if sc.cfg.get('interleaved') or sc.cfg.get('part_other_fs'):
         return          # two savers / a foreign part path: the single-save ordering rules below do not apply
+    if sc.api == 'reuse' and not _second:
+        # two saves in a row: the single-save rules apply to the events after the first save's publication
+        for i, ev in enumerate(log):
+            if ev['name'] in ('rename', 'replace', 'link') and not str(ev.get('result', '')).startswith('errno') \
+                    and len(ev['args']) > 1 and ev['args'][1] == sc.dest:
+                return check_log_order(log[i + 1:], sc, bad, exc, True)
+        bad('order', 'publishing calls', 'one rename/link onto the destination per save', 0)
+        return
     if (sc.cfg.get('dest_name') or sc.cfg['body'] == 'closes') and exc is not None:
         # a refused save: nothing may have been published
         for ev in log:
@@ -468,7 +537,13 @@ def run_config(task):
     t.add('crash_points', npoints + 1)
     # 3. normal completion
     fdest = final.get(sc.name, (None, None))[1]
-    if sc.aborts:
+    if sc.api == 'abandon':
+        # nobody called __exit__: whatever the object does when it is collected, it must not publish the partial content
+        if exc is not None:
+            bad('normal', 'abandoned saver raised', 'no exception', repr(exc))
+        if fdest != sc.old:
+            bad('normal', 'destination after an abandoned save', sc.old, fdest)
+    elif sc.aborts:
         # the body left through SystemExit/KeyboardInterrupt: that exception reaches the caller, nothing is published
         if not isinstance(exc, (SystemExit, KeyboardInterrupt)):
             bad('normal', 'exception of an aborted body', 'SystemExit/KeyboardInterrupt propagates', repr(exc))
@@ -485,7 +560,7 @@ def run_config(task):
     elif exc is not None:
         bad('normal', 'save raised', 'no exception', repr(exc))
     else:
-        if fdest not in sc.news:
+        if fdest != sc.news[0] and not (cfg.get('interleaved') and fdest in sc.news):
             bad('normal', 'destination content after normal exit', sc.news[0][:60], fdest)
         left = sorted(k for k in final if k != sc.name)
         if left:
